@@ -63,6 +63,10 @@ func (f *fixedReader) Read(p []byte) (int, error) {
 	}
 	copy(p, b)
 	kind, _ := st["errkind"].(string)
+	if kind == "panic" {
+		emit(Event{"op": "Read", "asked": len(p), "gave": 0, "bytes": []int{}, "errkind": "panic"})
+		panic("verif: injected panic inside the source's Read")
+	}
 	err := errOfKind(kind)
 	emit(Event{"op": "Read", "asked": len(p), "gave": len(b), "bytes": ints(b), "errkind": kind})
 	return len(b), err
@@ -179,7 +183,14 @@ func replayFile(path string) {
 			recCheck(fromUnits(intsOf(e["in"])), num(e["lang"]), keep)
 		case "ToSeed":
 			al, _ := e["alias_checked"].(bool)
-			recToSeed(fromUnits(intsOf(e["m"])), fromUnits(intsOf(e["p"])), al, keep)
+			stop, times := func() {}, 1
+			if c, _ := e["cls"].(string); c == "bigtext" { // recorded under a busy collector: re-executed under one, several times
+				stop, times = gcStorm(), 6
+			}
+			for t := 0; t < times; t++ {
+				recToSeed(fromUnits(intsOf(e["m"])), fromUnits(intsOf(e["p"])), al, keep)
+			}
+			stop()
 		case "String":
 			recString(bigOf(e["n"]), keep)
 		case "Swap":
@@ -206,7 +217,7 @@ func replayFile(path string) {
 			}
 			recNewMnemonic(bigOf(e["n"]), num(e["lang"]), keep)
 			for j < len(u) { // skip the recorded return
-				if o, _ := u[j]["op"].(string); o == "NewMnemonic" {
+				if o, _ := u[j]["op"].(string); o == "NewMnemonic" || o == "NewMnemonicAborted" {
 					break
 				}
 				j++
@@ -221,7 +232,7 @@ func replayFile(path string) {
 				injected = &fixedReader{fill: newRng(1, "replay")}
 				swapSource(injected, kind)
 			}
-		case "Reset", "Read", "NewMnemonic", "Recheck", "Buf", "SourceTotal":
+		case "Reset", "Read", "NewMnemonic", "NewMnemonicAborted", "Recheck", "Buf", "SourceTotal":
 			// nothing to re-execute
 		default:
 			replayExtra(op, e)
@@ -243,6 +254,7 @@ func currentSourceIsInjected() (*fixedReader, bool) { return injected, injected 
 
 type pstep struct {
 	DelayMs int     `json:"delay_ms,omitempty"` // new: the scripted source takes this long to answer each Read
+	GC      bool    `json:"gc,omitempty"`       // new: collections and finalizers run between the pieces the source delivers
 	Op      string  `json:"op"`
 	Kind    string  `json:"kind,omitempty"`
 	N       int64   `json:"n,omitempty"`
@@ -295,6 +307,7 @@ func runProgram(p program, seed int64) {
 					progSrc.after = "data"
 				}
 				progSrc.delay = time.Duration(st.DelayMs) * time.Millisecond
+				progSrc.gc = st.GC
 				if st.Fill >= 100 {
 					// a repeated stream: every call with this fill number is handed exactly the same bytes (a test
 					// fixture, a deterministic generator restarted from its seed, a recorded stream played again)
